@@ -227,6 +227,7 @@ type sysWorld struct {
 
 	patchScript []string
 	updScript   []string
+	bootOut     map[string]string // during construction: outcome of the start-up write per object, by listing position (as in the model)
 	effects     []string
 	hashBad     []string // C20: cached objects found modified
 	listed      map[string]*v1.ClusterCIDR // what the start-up listing returned
@@ -256,6 +257,7 @@ func newSysWorld() *sysWorld {
 }
 
 func (w *sysWorld) resetProcess() {
+	w.bootOut = nil
 	nidx := cache.NewIndexer(cache.MetaNamespaceKeyFunc, cache.Indexers{})
 	cidx := cache.NewIndexer(cache.MetaNamespaceKeyFunc, cache.Indexers{})
 	w.nodeInf = &fakeNodeInformer{inf: &fakeSharedInformer{indexer: nidx},
@@ -467,7 +469,9 @@ func (w *sysWorld) updateCCReactor(a k8stesting.Action) (bool, runtime.Object, e
 	obj := ua.GetObject().(*v1.ClusterCIDR)
 	cur := w.findCC(obj.Name)
 	out := "fail"
-	if len(w.updScript) > 0 {
+	if w.ctl == nil && w.bootOut != nil {
+		out = w.bootOut[obj.Name]
+	} else if len(w.updScript) > 0 {
 		out = w.updScript[0]
 		w.updScript = w.updScript[1:]
 	}
@@ -513,11 +517,54 @@ func (w *sysWorld) updateCCReactor(a k8stesting.Action) (bool, runtime.Object, e
 	}
 }
 
+// the only Create the controller issues is that of the default ClusterCIDR at start-up; the scripted outcome decides
+// whether it reaches the API ("ok", "aerr": applied, the latter with an error returned)
 func (w *sysWorld) createCCReactor(a k8stesting.Action) (bool, runtime.Object, error) {
 	ca := a.(k8stesting.CreateAction)
 	obj := ca.GetObject().(*v1.ClusterCIDR)
-	w.effects = append(w.effects, fmt.Sprintf("createcc %s fins=%s", obj.Name, finsTok(obj.Finalizers)))
-	return true, nil, apierrors.NewInternalError(fmt.Errorf("create not supported by the harness"))
+	out := "fail"
+	if w.ctl == nil && w.bootOut != nil {
+		out = w.bootOut[obj.Name]
+	} else if len(w.updScript) > 0 {
+		out = w.updScript[0]
+		w.updScript = w.updScript[1:]
+	}
+	exists := w.findCC(obj.Name) != nil
+	sel := "-"
+	if obj.Spec.NodeSelector != nil {
+		sel = "set"
+	}
+	w.effects = append(w.effects, fmt.Sprintf("createcc %s fins=%s v4=%s v6=%s hb=%d sel=%s %s", obj.Name, finsTok(obj.Finalizers),
+		specTok(obj.Spec.IPv4), specTok(obj.Spec.IPv6), obj.Spec.PerNodeHostBits, sel, out))
+	var stored *v1.ClusterCIDR
+	if (out == "ok" || out == "aerr") && !exists {
+		w.rv++
+		stored = obj.DeepCopy()
+		stored.ResourceVersion = strconv.Itoa(w.rv)
+		if stored.Annotations == nil {
+			stored.Annotations = map[string]string{}
+		}
+		stored.Annotations[restAnnotation] = "0"
+		w.ccs = append(w.ccs, stored)
+		w.pushC("add", stored)
+	}
+	switch {
+	case out == "ok" && stored != nil:
+		return true, stored.DeepCopy(), nil
+	case out == "aerr":
+		return true, nil, apierrors.NewServerTimeout(schema.GroupResource{Resource: "clustercidrs"}, "create", 1)
+	case exists:
+		return true, nil, apierrors.NewAlreadyExists(schema.GroupResource{Resource: "clustercidrs"}, obj.Name)
+	default:
+		return true, nil, apierrors.NewInternalError(fmt.Errorf("scripted failure"))
+	}
+}
+
+func specTok(s string) string {
+	if s == "" {
+		return "-"
+	}
+	return canonStr(s)
 }
 
 func (w *sysWorld) listCCReactor(a k8stesting.Action) (bool, runtime.Object, error) {
@@ -1123,16 +1170,44 @@ func (w *sysWorld) step(f []string) (res int, requeued bool) {
 			q := strings.SplitN(p[1], "/", 2)
 			params.SecondaryServiceCIDR, _ = mkNet(p[0], q[0], q[1])
 		}
-		w.updScript = scriptOf(f[3])
-		// a missing outcome means success at start-up (the model does the same)
-		for len(w.updScript) < len(w.ccs) {
-			w.updScript = append(w.updScript, "ok")
+		// f[4] (optional): the --cluster-cidr flags with their per-node mask sizes, <cidr>=<mask>,...
+		if len(f) > 4 && f[4] != "-" {
+			for _, x := range strings.Split(f[4], ",") {
+				cm := strings.SplitN(x, "=", 2)
+				p := strings.SplitN(cm[0], ":", 2)
+				q := strings.SplitN(p[1], "/", 2)
+				n, _ := mkNet(p[0], q[0], q[1])
+				ms, _ := strconv.Atoi(cm[1])
+				params.ClusterCIDRs = append(params.ClusterCIDRs, n)
+				params.NodeCIDRMaskSizes = append(params.NodeCIDRMaskSizes, ms)
+			}
 		}
+		// the i-th scripted outcome belongs to the i-th object of the start-up listing (the default ClusterCIDR, when it is
+		// added, comes last); a missing outcome means success (the model does the same)
+		script := scriptOf(f[3])
+		w.bootOut = map[string]string{}
+		names := []string{}
+		for _, c := range w.ccs {
+			names = append(names, c.Name)
+		}
+		names = append(names, "default-cluster-cidr")
+		for i, nm := range names {
+			if _, dup := w.bootOut[nm]; dup {
+				continue
+			}
+			if i < len(script) {
+				w.bootOut[nm] = script[i]
+			} else {
+				w.bootOut[nm] = "ok"
+			}
+		}
+		w.updScript = nil
 		nl := &corev1.NodeList{}
 		for _, n := range w.nodes {
 			nl.Items = append(nl.Items, *n.DeepCopy())
 		}
 		a, err := ipam.VerifNew(bgctx, w.kube, w.net.NetworkingV1().ClusterCIDRs(), w.nodeInf, w.ccInf, params, nl)
+		w.bootOut = nil
 		if err != nil {
 			return 2, false
 		}
